@@ -23,6 +23,9 @@ func init() {
 
 func runC05(p *eng.Prog, r *eng.Report, tier string) {
 	c := &cx{p, r, tier}
+	r19WrapPassesThePayloadOn(c, "C05.30")
+	r19FromIndependentOfTo(c, "C05.31")
+	r19CancelledOnlyWhileWaiting(c, "C05.29")
 	r18EncoderNamespaceIsTheOutputs(c, "C05.28")
 	c.r.Floor("C05.27", "functions scanned for package-level state", r17NoHiddenGlobalState(c, "C05.27"), 500)
 	// C05.24 (= C09.17 / C10.10): no cycle in the lock-order graph: a deadlock between a
